@@ -172,11 +172,13 @@ def render_member(owner: Optional[str], m: Dict[str, Any], indent: str, out: Lis
         for pre_stmt in m.get("pre_stmts", []):
             lines.append("    " + pre_stmt)
         lines.append("    HUB.body({!r}, {})".format(mid, got))
+        lines.append("    HUB.last_body_result = None")
         for post_stmt in m.get("post_stmts", []):
             lines.append("    " + post_stmt)
     elif kind == "new":
         lines.append("    HUB.body({!r}, {})".format(mid, got))
-        lines.append("    return object.__new__({})".format(names[0]))
+        lines.append("    HUB.last_body_result = object.__new__({})".format(names[0]))
+        lines.append("    return HUB.last_body_result")
     elif is_async:
         lines.append("    return await HUB.abody({!r}, {})".format(mid, got))
     else:
